@@ -15,7 +15,7 @@ Definition I (o : op) (vi : nat) (vb : N) (t : ty) : instr := mkI o vi vb [] [] 
 Fixpoint ilf (t : ty) : bool :=
   match t with
   | TBool | TInt _ | TF32 | TF64 | TNum | TStr | TAny => true
-  | TPtr e | TSlice e => ilf e
+  | TPtr e | TSlice e | TArr _ e => ilf e
   | _ => false
   end.
 
@@ -26,6 +26,30 @@ Definition prim_opc (t : ty) : op :=
 
 Fixpoint leaf (t : ty) : ty := match t with TPtr e => leaf e | _ => t end.
 Fixpoint derefs (t : ty) : prog := match t with TPtr e => I OP_deref 0 0 e :: derefs e | _ => [] end.
+
+Fixpoint clen (t : ty) : nat :=
+  match t with
+  | TBool | TInt _ | TF32 | TF64 | TNum => 2
+  | TStr => 6
+  | TAny => 4
+  | TPtr e0 =>
+    4 + (fix dlen (et : ty) : nat := match et with TPtr e' => S (dlen e') | _ => S (clen et) end) e0
+  | TSlice e => 22 + 2 * clen e
+  | TArr n e => 12 + n * (clen e + 6)
+  | _ => 0
+  end.
+
+
+(* compileArray: the unrolled items; ce = the element's code, L = its length + 1 (with the lspace), T = the target of the
+   `]` tests (0 while the program is being built, the array_clear afterwards), k items to go out of n *)
+Fixpoint icode (ce : nat -> prog) (L T n k : nat) (b : nat) : prog :=
+  match k with
+  | O => []
+  | S k' =>
+    (I OP_lspace 0 0 TBool :: ce (S b)) ++
+    [I OP_load 0 0 TBool; I OP_index (S (n - k)) 0 TBool; I OP_lspace 0 0 TBool; I OP_check_char T 93 TBool; I OP_match_char 0 44 TBool] ++
+    icode ce L T n k' (b + L + 5)
+  end.
 
 Fixpoint code (t : ty) (b : nat) {struct t} : prog :=
   match t with
@@ -58,18 +82,14 @@ Fixpoint code (t : ty) (b : nat) {struct t} : prog :=
     ++ one2 ++
     [I OP_load 0 0 TBool; I OP_goto (b + 11 + L) 0 TBool; I OP_drop 0 0 TBool; I OP_goto (b + 20 + 2 * L) 0 TBool;
      I OP_nil_3 0 0 TBool]
+  | TArr n e =>
+    let L := S (clen e) in
+    let CLR := b + 8 + n * (L + 5) + 2 in
+    [I OP_is_null (CLR + 2) 0 TBool; I OP_check_char_0 (b + 4) 91 TBool; I OP_dismatch_err 0 0 TBool;
+     I OP_go_skip (CLR + 2) 0 TBool; I OP_add 1 0 TBool; I OP_save 0 0 TBool; I OP_lspace 0 0 TBool; I OP_check_char CLR 93 TBool]
+    ++ icode (code e) L CLR n n (b + 8)
+    ++ [I OP_array_skip 0 0 TBool; I OP_goto (CLR + 1) 0 TBool; I OP_array_clear 0 0 e; I OP_drop 0 0 TBool]
   | _ => []
-  end.
-
-Fixpoint clen (t : ty) : nat :=
-  match t with
-  | TBool | TInt _ | TF32 | TF64 | TNum => 2
-  | TStr => 6
-  | TAny => 4
-  | TPtr e0 =>
-    4 + (fix dlen (et : ty) : nat := match et with TPtr e' => S (dlen e') | _ => S (clen et) end) e0
-  | TSlice e => 22 + 2 * clen e
-  | _ => 0
   end.
 
 Definition dcode : ty -> nat -> prog :=
@@ -91,6 +111,12 @@ Proof. reflexivity. Qed.
 Lemma clen_ptr : forall e0, clen (TPtr e0) = 4 + dlen e0.
 Proof. reflexivity. Qed.
 
+Lemma icode_len : forall ce L T n k b, (forall b', S (length (ce b')) = L) -> length (icode ce L T n k b) = k * (L + 5).
+Proof.
+  intros ce L T n k. induction k as [|k IH]; intros b H; [reflexivity|].
+  cbn [icode]. rewrite !app_length. cbn [length]. rewrite IH by exact H. rewrite <- (H (S b)). lia.
+Qed.
+
 Lemma code_dcode_len : forall t, (forall b, length (code t b) = clen t) /\ (forall b, length (dcode t b) = dlen t).
 Proof.
   induction t; try (split; intros b; reflexivity).
@@ -98,6 +124,11 @@ Proof.
     assert (C : forall b, length (code (TSlice t) b) = clen (TSlice t)).
     { intros b. cbn [code clen]. simpl length. rewrite !app_length. simpl length. rewrite !app_length. simpl length.
       rewrite !IH. lia. }
+    split; [exact C|]. intros b. cbn [dcode dlen length]. rewrite C. reflexivity.
+  - (* array *) destruct IHt as [IH _].
+    assert (C : forall b, length (code (TArr n t) b) = clen (TArr n t)).
+    { intros b. cbn [code clen]. rewrite !app_length. cbn [length].
+      rewrite icode_len by (intros b'; rewrite IH; reflexivity). lia. }
     split; [exact C|]. intros b. cbn [dcode dlen length]. rewrite C. reflexivity.
   - (* ptr *) destruct IHt as [_ IH].
     split; intros b.
@@ -144,7 +175,7 @@ Lemma pin_length : forall p i, length (pin p i) = length p.
 Proof. intros. rewrite pin_eq. apply upd_length. Qed.
 
 Ltac norm :=
-  unfold add, chr, int_, rtt, pc;
+  unfold add, chr, int_, rtt, rtti, pc;
   repeat (rewrite <- ?app_assoc; simpl app; rewrite ?app_length, ?pin_length, ?upd_length; simpl length;
           rewrite <- ?Nat.add_assoc; rewrite ?pin_n, ?pin_n0; cbn [upd]; rewrite ?upd_app_r).
 
@@ -244,6 +275,129 @@ Proof.
   rewrite !dcode_len. unfold I, setvi. cbn [i_op i_vb i_vs i_fm i_t]. repeat (f_equal; try lia).
 Qed.
 
+(* ---- compileArray ---- *)
+Definition itemsfix (sp : nat) (e : ty) (n : nat) : nat -> prog -> list nat -> prog * list nat :=
+  fix items (k : nat) (p : prog) (v : list nat) : prog * list nat :=
+    match k with
+    | O => (p, v)
+    | S k' =>
+      let p := match checkMarshaler p e with Some p' => p' | None => compileOps (S sp) e (add p OP_lspace) end in
+      let p := add p OP_load in
+      let p := int_ p OP_index (S (n - k)) in
+      let p := add p OP_lspace in
+      let v := v ++ [pc p] in
+      let p := chr p OP_check_char 93 in
+      let p := chr p OP_match_char 44 in
+      items k' p v
+    end.
+
+Lemma compile_arr_unfold : forall sp n e p,
+  compileOps sp (TArr n e) p =
+  (let x := pc p in
+   let p := add p OP_is_null in
+   let '(p, skip) := checkIfSkip p 91 in
+   let p := add p OP_save in
+   let p := add p OP_lspace in
+   let v0 := pc p in
+   let p := chr p OP_check_char 93 in
+   let '(p, v) := itemsfix sp e n n p [v0] in
+   let p := add p OP_array_skip in
+   let w := pc p in
+   let p := add p OP_goto in
+   let p := rel p v in
+   let p := rtti p OP_array_clear e 0 in
+   let p := pin p w in
+   let p := add p OP_drop in
+   let p := pin p skip in
+   pin p x).
+Proof. reflexivity. Qed.
+
+Fixpoint ipos (L k b : nat) : list nat :=
+  match k with O => [] | S k' => (b + L + 3) :: ipos L k' (b + L + 5) end.
+
+Lemma items_reloc : forall sp e n, ilf e = true -> R e -> forall k p c v,
+  itemsfix sp e n k (p ++ c) v =
+  (p ++ c ++ icode (code e) (S (clen e)) 0 n k (length p + length c), v ++ ipos (S (clen e)) k (length p + length c)).
+Proof.
+  intros sp e n F Re. specialize (Re F). induction k as [|k IH]; intros p c v.
+  - cbn [itemsfix icode ipos]. rewrite !app_nil_r. reflexivity.
+  - cbn [itemsfix]. rewrite checkMarshaler_ilf by exact F. norm. rewrite Re. norm.
+    match goal with |- itemsfix _ _ _ _ (p ++ ?C) ?V = _ => rewrite (IH p C V) end.
+    cbn [icode ipos]. rewrite !app_length. cbn [length]. rewrite !app_length, !code_len. cbn [length].
+    replace (length p + (length c + 1)) with (S (length p + length c)) by lia.
+    replace (length p + (length c + S (clen e + 5))) with (length p + length c + S (clen e) + 5) by lia.
+    replace (length p + (length c + S (clen e + 3))) with (length p + length c + S (clen e) + 3) by lia.
+    f_equal; repeat (rewrite <- ?app_assoc; cbn [app]); reflexivity.
+Qed.
+
+(* rel over the recorded `]` tests: every one of them gets the address of the array_clear *)
+Lemma rel_items : forall ce L n, (forall b', S (length (ce b')) = L) -> forall k q tl N,
+  N = length (q ++ icode ce L 0 n k (length q) ++ tl) ->
+  rel (q ++ icode ce L 0 n k (length q) ++ tl) (ipos L k (length q)) = q ++ icode ce L N n k (length q) ++ tl.
+Proof.
+  intros ce L n HL. unfold rel. induction k as [|k IH]; intros q tl N EN; [reflexivity|].
+  cbn [ipos fold_left icode].
+  set (one0 := I OP_lspace 0 0 TBool :: ce (S (length q))).
+  assert (L1 : length one0 = L) by (unfold one0; cbn [length]; apply HL).
+  assert (E1 : pin (q ++ (one0 ++ [I OP_load 0 0 TBool; I OP_index (S (n - S k)) 0 TBool; I OP_lspace 0 0 TBool;
+                                   I OP_check_char 0 93 TBool; I OP_match_char 0 44 TBool] ++
+                          icode ce L 0 n k (length q + L + 5)) ++ tl) (length q + L + 3) =
+               (q ++ one0 ++ [I OP_load 0 0 TBool; I OP_index (S (n - S k)) 0 TBool; I OP_lspace 0 0 TBool;
+                              I OP_check_char N 93 TBool; I OP_match_char 0 44 TBool]) ++
+               icode ce L 0 n k (length q + L + 5) ++ tl).
+  { replace (length q + L + 3) with (length q + (L + 3)) by lia. rewrite pin_n.
+    match goal with |- context [setvi (length q + length ?X)] =>
+      replace (length q + length X) with N
+        by (rewrite EN; cbn [icode]; fold one0; repeat (rewrite !app_length; cbn [length]); lia) end.
+    rewrite <- !app_assoc.
+    replace (L + 3) with (length one0 + 3) by lia. rewrite upd_app_r. cbn [app upd]. unfold setvi, I. cbn [i_op i_vb i_vs i_fm i_t].
+    rewrite <- ?app_assoc. reflexivity. }
+  rewrite E1. clear E1.
+  match goal with |- fold_left pin _ (?Q ++ _ ++ tl) = _ =>
+    replace (length q + L + 5) with (length Q) by (rewrite !app_length; cbn [length]; rewrite L1; lia);
+    rewrite (IH Q tl N) end.
+  - repeat (rewrite <- ?app_assoc; cbn [app]). reflexivity.
+  - rewrite EN. cbn [icode]. fold one0. repeat (rewrite !app_length; cbn [length]). rewrite !icode_len by exact HL. lia.
+Qed.
+
+Lemma R_arr : forall n e, R e -> R (TArr n e).
+Proof.
+  intros n e Re F sp p. simpl in F. rewrite compile_arr_unfold. unfold checkIfSkip. norm.
+  rewrite (items_reloc sp e n F Re n p). cbv zeta. cbn [length app].
+  set (L := S (clen e)).
+  set (N := length p + 8 + n * (L + 5) + 2).
+  assert (HL : forall b', S (length (code e b')) = L) by (intros b'; rewrite code_len; reflexivity).
+  unfold rel. cbn [fold_left app]. norm.
+  (* the first `]` test *)
+  match goal with |- context [fold_left pin ?V ?P1] =>
+    assert (E0 : fold_left pin V P1 =
+                 (p ++ [I OP_is_null 0 0 TBool; I OP_check_char_0 (length p + 4) 91 TBool; I OP_dismatch_err 0 0 TBool;
+                        I OP_go_skip 0 0 TBool; I OP_add 1 0 TBool; I OP_save 0 0 TBool; I OP_lspace 0 0 TBool;
+                        I OP_check_char N 93 TBool]) ++
+                 icode (code e) L N n n (length p + 8) ++ [I OP_array_skip 0 0 TBool; I OP_goto 0 0 TBool]) end.
+  { norm. rewrite icode_len by exact HL.
+    replace (length p + (8 + (n * (L + 5) + 2))) with N by (unfold N; lia).
+    cbn [upd]. unfold setvi at 2. cbn [i_op i_vb i_vs i_fm i_t].
+    match goal with |- fold_left pin _ (p ++ ?c0 :: ?c1 :: ?c2 :: ?c3 :: ?c4 :: ?c5 :: ?c6 :: ?c7 :: ?rest) = _ =>
+      change (p ++ c0 :: c1 :: c2 :: c3 :: c4 :: c5 :: c6 :: c7 :: rest) with (p ++ [c0; c1; c2; c3; c4; c5; c6; c7] ++ rest) end.
+    rewrite app_assoc.
+    match goal with |- fold_left pin (ipos L n ?b) (?Q ++ icode _ _ _ _ _ ?b' ++ ?tl) = _ =>
+      replace b with (length Q) by (rewrite app_length; cbn [length]; lia);
+      replace b' with (length Q) by (rewrite app_length; cbn [length]; lia);
+      pose proof (rel_items (code e) L n HL n Q tl N) as RI end.
+    unfold rel in RI. etransitivity; [apply RI|].
+    - repeat (rewrite ?app_length; cbn [length]). rewrite icode_len by exact HL. unfold N. lia.
+    - clear RI. rewrite app_length. cbn [length].
+      replace (length p + S (S (S (S (S (S (S (S (n * (L + 5) + 2))))))))) with N by (unfold N; lia).
+      repeat (rewrite <- ?app_assoc; cbn [app]). reflexivity. }
+  rewrite E0. clear E0.
+  assert (UI : forall T b q k f, upd (icode (code e) L T n n b ++ q) (n * (L + 5) + k) f = icode (code e) L T n n b ++ upd q k f).
+  { intros. rewrite <- (icode_len (code e) L T n n b HL). apply upd_app_r. }
+  norm. rewrite ?icode_len by exact HL. norm. rewrite ?UI. cbn [upd]. rewrite ?icode_len by exact HL. norm. rewrite ?UI. cbn [upd].
+  replace N with (length p + S (S (S (S (S (S (S (S (n * S (clen e + 5) + 2))))))))) by (unfold N, L; lia).
+  reflexivity.
+Qed.
+
 Theorem compile_code_all : forall t, R t /\ D t.
 Proof.
   induction t; try (split; [intros F; discriminate F | intros F; discriminate F]).
@@ -252,6 +406,7 @@ Proof.
               split; [exact Rt | apply D_leaf; [exact Logic.I | exact Rt]] end).
   - pose proof R_str as Rt. split; [exact Rt | apply D_leaf; [exact Logic.I | exact Rt]].
   - destruct IHt as [IH _]. pose proof (R_slice t IH) as Rt. split; [exact Rt | apply D_leaf; [exact Logic.I | exact Rt]].
+  - destruct IHt as [IH _]. pose proof (R_arr n t IH) as Rt. split; [exact Rt | apply D_leaf; [exact Logic.I | exact Rt]].
   - destruct IHt as [_ IH]. split; [apply R_ptr; exact IH | apply D_ptr; exact IH].
   - pose proof R_any as Rt. split; [exact Rt | apply D_leaf; [exact Logic.I | exact Rt]].
 Qed.
